@@ -31,10 +31,6 @@ class Wrapc(util.WrapperMixin):
     """Generate C bindings and Fortran helpers for C++ library.
 
     """
-    capsule_code = {}
-    capsule_order = []
-    capsule_include = {}  # includes needed by C_memory_dtor_function
-
     def __init__(self, newlibrary, config, splicers):
         """
         Args:
@@ -58,6 +54,10 @@ class Wrapc(util.WrapperMixin):
         self.shared_proto_c = []
         # Include files required by wrapper implementations.
         self.capsule_typedef_nodes = OrderedDict()  # [typemap.name] = typemap
+        # Per library, not shared between instances.
+        self.capsule_code = {}
+        self.capsule_order = []
+        self.capsule_include = {}  # includes needed by C_memory_dtor_function
 
     _default_buf_args = ["arg"]
 
